@@ -177,6 +177,20 @@ func toArrayStr(data interface{}) ([]string, bool) {
 	return nil, false
 }
 
+// toSlice converts a value that passed the "array" type check (a slice of
+// any element type) to a []interface{}.
+func toSlice(v interface{}) []interface{} {
+	if s, ok := v.([]interface{}); ok {
+		return s
+	}
+	rv := reflect.ValueOf(v)
+	result := make([]interface{}, rv.Len())
+	for i := range result {
+		result[i] = rv.Index(i).Interface()
+	}
+	return result
+}
+
 func isSliceType(v interface{}) bool {
 	if v == nil {
 		return false
